@@ -16,8 +16,8 @@ ID = "C12"
 CASES = {"quick": 4000, "thorough": 50000}
 FLOOR = {"quick": 3500, "thorough": 45000}
 FLOOR_COUNTERS = {
-    "quick": {"tiny_magnitude_kernels": 250, "normalizer_fits": 1800, "sparse_fits": 1800, "test_kernels_judged": 3500, "weighted_fits": 2000, "estimators_with_a_past": 2500, "fewer_samples_than_active_points": 200, "in_place_entry_points": 3000, "non_default_containers": 1500, "tiny_magnitude_weights": 400, "more_than_2048_samples": 60, "rejected_calls_in_the_history": 1200, "aliased_kernel_arguments": 150},
-    "thorough": {"tiny_magnitude_kernels": 3000, "normalizer_fits": 22000, "sparse_fits": 22000, "test_kernels_judged": 45000, "weighted_fits": 25000, "estimators_with_a_past": 30000, "fewer_samples_than_active_points": 2500, "in_place_entry_points": 40000, "non_default_containers": 20000, "tiny_magnitude_weights": 5000, "more_than_2048_samples": 800, "rejected_calls_in_the_history": 15000, "aliased_kernel_arguments": 2000},
+    "quick": {"tiny_magnitude_kernels": 180, "normalizer_fits": 1800, "sparse_fits": 1800, "test_kernels_judged": 3500, "weighted_fits": 2000, "estimators_with_a_past": 2500, "fewer_samples_than_active_points": 200, "in_place_entry_points": 3000, "non_default_containers": 1500, "tiny_magnitude_weights": 400, "more_than_2048_samples": 60, "rejected_calls_in_the_history": 1200, "aliased_kernel_arguments": 150},
+    "thorough": {"tiny_magnitude_kernels": 2300, "normalizer_fits": 22000, "sparse_fits": 22000, "test_kernels_judged": 45000, "weighted_fits": 25000, "estimators_with_a_past": 30000, "fewer_samples_than_active_points": 2500, "in_place_entry_points": 40000, "non_default_containers": 20000, "tiny_magnitude_weights": 5000, "more_than_2048_samples": 800, "rejected_calls_in_the_history": 15000, "aliased_kernel_arguments": 2000},
 }
 RULE = (
     "case = explicit features F (n 2-30, f 1-8, offset so that centring matters), test features (1-40 rows), weights "
